@@ -672,7 +672,7 @@ func (fr *frame) doAppend(b *ssa.BasicBlock, st *state, x ssa.Value, args []ssa.
 		k := c.leafKeys(p1, lf.typ)[0].key
 		H := c.heapGet(st, k)
 		s1 := addrPath(fmt.Sprintf("(selem %s ap!i)", s), lf.fids)
-		fr.vc.assumeG(fmt.Sprintf("(forall ((ap!i Int)) (! (=> (and (<= 0 ap!i) (< ap!i (slen %s))) (= (select %s %s) (select %s %s))) :pattern ((select %s %s))))", s, H, p1, H, s1, H, p1))
+		fr.vc.assumeG(fmt.Sprintf("(forall ((ap!i Int)) (! (=> (and (<= 0 ap!i) (< ap!i (slen %s))) (= (select %s %s) (select %s %s))) :pattern ((select %s %s)) :pattern ((select %s %s))))", s, H, p1, H, s1, H, p1, H, s1))
 		p2 := addrPath(fmt.Sprintf("(selem %s (+ (slen %s) ap!i))", res, s), lf.fids)
 		s2 := addrPath(fmt.Sprintf("(selem %s ap!i)", t), lf.fids)
 		fr.vc.assumeG(fmt.Sprintf("(forall ((ap!i Int)) (! (=> (and (<= 0 ap!i) (< ap!i (slen %s))) (= (select %s %s) (select %s %s))) :pattern ((select %s %s))))", t, H, p2, H, s2, H, s2))
